@@ -30,19 +30,42 @@ def _mk_node(ep):
     return Node(name, meta=copy.deepcopy(meta), variable_type=VT[vt])
 
 
+_kw_calls = [0]
+
+
+def _kw(**kw):
+    """Keyword arguments for a call; on every other call the ones equal to the DOCUMENTED default are left out, so that the
+    defaults themselves (validate=True, edge_type='->', meta=None, variable_type=unspecified) are exercised as well."""
+    _kw_calls[0] += 1
+    if _kw_calls[0] % 2:
+        return kw
+    out = {}
+    for k, v in kw.items():
+        if k == 'validate' and v is True:
+            continue
+        if k == 'meta' and v is None:
+            continue
+        if k == 'edge_type' and v == ET['->']:
+            continue
+        if k == 'variable_type' and v == VT['unspecified']:
+            continue
+        out[k] = v
+    return out
+
+
 def apply_op(g, op):
     """Apply op to the implementation graph; returns the error code (0 = no exception)."""
     k = op[0]
     try:
         if k == 'add_node':
             _, i, vt, m = op
-            g.add_node(i, variable_type=VT[vt], meta=copy.deepcopy(m))
+            g.add_node(i, **_kw(variable_type=VT[vt], meta=copy.deepcopy(m)))
         elif k == 'add_node_obj':
             _, i, vt, m = op
             g.add_node(node=Node(i, meta=copy.deepcopy(m), variable_type=VT[vt]))
         elif k == 'add_node_vl':
             _, v, l, vt, m = op
-            g.add_node(variable_name=v, time_lag=l, variable_type=VT[vt], meta=copy.deepcopy(m))
+            g.add_node(variable_name=v, time_lag=l, **_kw(variable_type=VT[vt], meta=copy.deepcopy(m)))
         elif k == 'add_nodes_from':
             g.add_nodes_from(list(op[1]))
         elif k == 'add_fully_connected':
@@ -68,25 +91,25 @@ def apply_op(g, op):
             _, sp, dp, ty, m, validate, form = op
             m = copy.deepcopy(m)
             if form == 'ids':
-                g.add_edge(sp[0], dp[0], edge_type=ET[ty], meta=m, validate=validate)
+                g.add_edge(sp[0], dp[0], **_kw(edge_type=ET[ty], meta=m, validate=validate))
             elif form == 'pair':
-                g.add_edge_by_pair((sp[0], dp[0]), edge_type=ET[ty], meta=m, validate=validate)
+                g.add_edge_by_pair((sp[0], dp[0]), **_kw(edge_type=ET[ty], meta=m, validate=validate))
             elif form == 'nodes':
-                g.add_edge(_mk_node(sp), _mk_node(dp), edge_type=ET[ty], meta=m, validate=validate)
+                g.add_edge(_mk_node(sp), _mk_node(dp), **_kw(edge_type=ET[ty], meta=m, validate=validate))
             elif form == 'edgeobj':
                 e = Edge(_mk_node(sp), _mk_node(dp), edge_type=ET[ty], meta=m)
-                g.add_edge(edge=e, validate=validate)
+                g.add_edge(edge=e, **_kw(validate=validate))
             else:
                 raise RuntimeError(form)
         elif k == 'add_edges_from':
-            g.add_edges_from([tuple(p) for p in op[1]], validate=op[2])
+            g.add_edges_from([tuple(p) for p in op[1]], **_kw(validate=op[2]))
         elif k == 'add_path':
-            g.add_edges_from_paths(list(op[1]), validate=op[2])
+            g.add_edges_from_paths(list(op[1]), **_kw(validate=op[2]))
         elif k == 'add_paths':
             g.add_edges_from_paths([list(p) for p in op[1]])
         elif k == 'add_time_edge':
             _, sv, st, dv, dt, m, validate = op
-            g.add_time_edge(sv, st, dv, dt, meta=copy.deepcopy(m), validate=validate)
+            g.add_time_edge(sv, st, dv, dt, **_kw(meta=copy.deepcopy(m), validate=validate))
         elif k == 'delete_edge':
             _, s, d, oty, form = op
             et = None if oty is None else ET[oty]
@@ -345,6 +368,11 @@ class Gen:
         return r.choice(self.pool)
 
     def meta(self):
+        if self.kind == 'TS' and self.rng.random() < 0.12:
+            # user metadata that itself carries the two reserved time-series tags (e.g. copied from another node): the class
+            # must let the identifier win
+            return copy.deepcopy(self.rng.choice([{'time_lag': 7}, {'variable_name': 'q', 'time_lag': -3, 'u': 1},
+                                                  {'variable_name': 'x'}, {'time_lag': 0, 'variable_name': 'y lag(n=1)'}]))
         return copy.deepcopy(self.rng.choice(METAS))
 
     def ety(self):
